@@ -1,6 +1,6 @@
 /- C18: values too long for their length prefix are refused — theorems about the primitive model for every prefix width;
    the hand-written types propagate the primitives' errors (a dropped error is an unrecognised statement). -/
-import FinProto.Obl.Side
+import FinProto.Obl.SNoOpaque
 import FinProto.Props.PrimLemmas
 namespace FinProto.Obl
 open FinProto
